@@ -1,21 +1,70 @@
+//! wpv — model-checking harness for orca-so/whirlpools (see /verif/DESIGN.md).
+mod checks;
 mod decode;
+mod explore;
+mod refmodel;
+mod report;
 mod world;
 
+use report::{Ctx, Tier};
+
+fn usage() -> ! {
+    eprintln!("usage: wpv check <C01..C20> [--tier quick|thorough]\n       wpv replay <path>\n       wpv selftest");
+    std::process::exit(2)
+}
+
 fn main() {
-    let spec = world::StdSpec {
-        label: "smoke".into(), tick_spacing: 64, fee_rate: 3000, protocol_fee_rate: 300, sqrt_price: 1u128 << 64,
-        arrays: vec![(-1, world::Enc::Dynamic), (0, world::Enc::Fixed), (1, world::Enc::Fixed)],
-        positions: vec![(-128, 128, false), (-64, 256, true)], t22_a: None, t22_b: None,
-    };
-    let (mut l, w) = world::build_std(&spec);
-    let o = svm::process(&mut l, &world::ix_increase(&w.positions[0], &w.lp, 1_000_000_000, u64::MAX, u64::MAX, false));
-    println!("inc: {}", o.short());
-    let o = svm::process(&mut l, &world::ix_increase(&w.positions[1], &w.lp, 1_000_000_000, u64::MAX, u64::MAX, true));
-    println!("inc v2: {} events {}", o.short(), o.events.len());
-    println!("vaults {} {}", world::balance(&l, &w.pool.vault_a), world::balance(&l, &w.pool.vault_b));
-    let st = w.pool.state(&l);
-    let a = world::SwapArgs { amount: 1_000_000, other_amount_threshold: 0, sqrt_price_limit: 0, amount_specified_is_input: true, a_to_b: true };
-    let o = svm::process(&mut l, &world::ix_swap(&w.pool, &w.trader, a, world::swap_tick_arrays(&w.pool, st.tick_current_index, true), false, &[]));
-    println!("swap: {} events {} trace {:?}", o.short(), o.events.len(), whirlpool::verif_hooks::take_swap_trace().len());
-    println!("pool {:?}", w.pool.state(&l));
+    let args: Vec<String> = std::env::args().collect();
+    if args.len() < 2 {
+        usage();
+    }
+    svm::init();
+    match args[1].as_str() {
+        "check" => {
+            if args.len() < 3 {
+                usage();
+            }
+            let id = args[2].to_uppercase();
+            let mut tier = match std::env::var("VERIF_TIER").ok().as_deref() {
+                Some("thorough") => Tier::Thorough,
+                _ => Tier::Quick,
+            };
+            let mut i = 3;
+            while i < args.len() {
+                if args[i] == "--tier" && i + 1 < args.len() {
+                    tier = if args[i + 1] == "thorough" { Tier::Thorough } else { Tier::Quick };
+                    i += 1;
+                }
+                i += 1;
+            }
+            let seed = std::env::var("VERIF_SEED").ok().and_then(|s| s.parse::<i64>().ok()).unwrap_or(0);
+            let budget_s = std::env::var("WPV_BUDGET_S").ok().and_then(|s| s.parse::<f64>().ok()).unwrap_or(if tier.is_quick() { 40.0 } else { 1500.0 });
+            let ctx = Ctx { tier, seed, start: std::time::Instant::now(), budget_s };
+            let code = checks::run(&id, &ctx);
+            std::process::exit(code);
+        }
+        "replay" => {
+            if args.len() < 3 {
+                usage();
+            }
+            let s = std::fs::read_to_string(&args[2]).expect("read replay file");
+            let v: serde_json::Value = serde_json::from_str(&s).expect("parse replay file");
+            let id = v["property"].as_str().expect("property").to_string();
+            match checks::replay(&id, &v["case"]) {
+                Ok(()) => {
+                    println!("replay: property {id} holds on this case (no violation)");
+                    std::process::exit(0)
+                }
+                Err(d) => {
+                    println!("VIOLATION property={id} replay={}", args[2]);
+                    eprintln!("  detail: {d}");
+                    std::process::exit(1)
+                }
+            }
+        }
+        "selftest" => {
+            std::process::exit(checks::selftest());
+        }
+        _ => usage(),
+    }
 }
